@@ -1,5 +1,5 @@
 (* C01 - CTAP2 request decoding is faithful to the specification's parameter tables. *)
-From Ctap Require Import Base Schema Wire Utf8 Typed Procs Inst Tables ProcTables Finite CborItem WireP SkipP TypedP EntriesP FramingP C11P ObRequestSide ObOpTables.
+From Ctap Require Import Base Schema Wire Utf8 Typed Procs Inst Tables ProcTables Finite CborItem WireP SkipP TypedP EntriesP FramingP C11P WellTyped SerP RoundTripP ObRequestSide ObOpTables ObEnvRt.
 Local Open Scope string_scope.
 Local Open Scope Z_scope.
 
@@ -62,6 +62,38 @@ Theorem c01_text_map_faithful : forall e k name s d fs tes rest,
   = Ok (VRec (txt_record fs tes), rest).
 Proof. exact dec_text_struct. Qed.
 
+(* WHOLE REQUESTS.  For every parameter-bearing command, every parameter value that is well-typed for the
+   command's parameter table (any subset of optional parameters, any sizes within the limits, nested
+   dictionaries and lists of any length) and ANY trailing bytes: the request decodes to the command's
+   variant carrying EXACTLY that value - no parameter dropped, altered or attributed to another member -
+   at the specification tables ... *)
+Theorem c01_spec_declarations_wellformed : forallb (fun f => env_rt (spec_env f)) all_feats = true.
+Proof. vm_compute. reflexivity. Qed.
+
+Theorem c01_request_faithful : forall f b variant t v enc trailing,
+  In f all_feats -> 0 <= b < 256 -> spec_route b = RtDecode variant t ->
+  wt (spec_env f) type_fuel t v = true -> encode (spec_env f) t v = Some enc ->
+  request_deserialize spec_tables (spec_env f) (b :: enc ++ trailing)%list = ROk (ReqBody variant v).
+Proof.
+  intros f b variant t v enc trailing Hf Hb Hr W H.
+  apply (c01_decode_is_typed_decode (spec_env f) b (enc ++ trailing)%list variant t v trailing Hb Hr).
+  apply decode_encode; [|exact W|exact H].
+  exact (forallb_In (fun f => env_rt (spec_env f)) all_feats f c01_spec_declarations_wellformed Hf).
+Qed.
+
+(* ... and at the declarations and tables regenerated from /repo *)
+Theorem c01_generated_request_faithful : forall f b variant t v enc trailing,
+  In f all_feats -> 0 <= b < 256 -> spec_route b = RtDecode variant t ->
+  wt (gen_env f) type_fuel t v = true -> encode (gen_env f) t v = Some enc ->
+  request_deserialize (gen_tables f) (gen_env f) (b :: enc ++ trailing)%list = ROk (ReqBody variant v).
+Proof.
+  intros f b variant t v enc trailing Hf Hb Hr W H.
+  cbn [request_deserialize]. rewrite (generated_route f b Hf Hb), Hr. cbn [run_route].
+  rewrite (decode_encode (gen_env f) t v enc trailing
+             (forallb_In (fun f => env_rt (gen_env f)) all_feats f generated_env_rt Hf) W H).
+  reflexivity.
+Qed.
+
 (* non-vacuity: a LargeBlobs request {3: 0, 1: 7} (keys out of order) satisfies the hypotheses *)
 Example c01_ex_large_blobs :
   decode (spec_env []) (TNamed "ctap2::large_blobs::Request") [0xA2; 0x03; 0x00; 0x01; 0x07]
@@ -75,3 +107,5 @@ Eval vm_compute in "ASSUMPTIONS c01_generated_conforms". Print Assumptions c01_g
 Eval vm_compute in "ASSUMPTIONS c01_generated_route". Print Assumptions c01_generated_route.
 Eval vm_compute in "ASSUMPTIONS c01_routes". Print Assumptions c01_routes.
 Eval vm_compute in "ASSUMPTIONS c01_decode_is_typed_decode". Print Assumptions c01_decode_is_typed_decode.
+Eval vm_compute in "ASSUMPTIONS c01_request_faithful". Print Assumptions c01_request_faithful.
+Eval vm_compute in "ASSUMPTIONS c01_generated_request_faithful". Print Assumptions c01_generated_request_faithful.
